@@ -142,6 +142,17 @@ def gen_table(rng, n_enums, big=False):
         spec["skip_columns"] = [rng.choice(fields)] if len(fields) > 2 and "fmt" not in spec else []
     if rng.random() < 0.12:
         spec["via_fmt_obj"] = True
+    if rng.random() < 0.15:
+        plain = [f for f in fields if f != "status"]
+        spec["wtypes"] = {rng.choice(plain): [rng.randint(0, 4), rng.randint(4, 9)]}
+    if rng.random() < 0.08 and len(fields) >= 3 and recs:
+        # an "enhanced" table: values are found by the paths given in the format
+        f0, f1, f2 = fields[0], fields[1], fields[2]
+        last = fields[-1]
+        spec = {"kind": "table", "fields": fields, "records": recs, "enhanced": True,
+                "fmt": f"{f0}<-0.0,{f1}<-0.1:2-9,{f2}<-1.[k],{last}2<-2.v"}
+        if "status" in (f0, f1, f2):
+            spec["types"] = {"status": rng.randrange(n_enums)} if n_enums else {}
     return spec
 
 
